@@ -92,6 +92,21 @@ def rateV1 (ps : List Nat) (d : Nat) (m : Option Dist) : Option Dist :=
 def fairV2 (ps : List Nat) (d : Nat) (m : Option Dist) : Option Dist := m.map (fair ps d)
 def rateV2 (ps : List Nat) (d : Nat) (m : Option Dist) : Option Dist := m.map (rate ps d)
 
+/-- NOT a library function: a contract-abiding custom divider used by the correspondence runs of
+    the helper / constructor checks (C15, C18) — one unit to the LOWEST listed priority, the rest
+    as `fair`.  It conserves the dividend, yet can leave a priority that is not the lowest with
+    nothing (`[3,2,1]`, 2 handlers: 3 ↦ 1, 2 ↦ 0, 1 ↦ 1), which the library's own dividers never do. -/
+def lowfirst (ps : List Nat) (d : Nat) (m : Dist) : Dist :=
+  match ps.getLast? with
+  | none => m
+  | some l => if d = 0 then m else fair ps (d - 1) (m.add l 1)
+
+/-- NOT a library function: a divider that does not conserve the dividend (every listed priority
+    gets `d` units), used by the correspondence runs of the helper checks (C18): the helpers are
+    defined by what the divider gives. -/
+def quota (ps : List Nat) (d : Nat) (m : Dist) : Dist :=
+  ps.foldl (fun acc p => acc.add p d) m
+
 /-- `general.DivideWithMin` -/
 def divideWithMin (base divider min : Nat) : Nat :=
   if divider = 0 then base else if base / divider < min then min else base / divider
